@@ -264,7 +264,7 @@ type st struct {
 	sawPresent  map[[2]int]bool
 	sentAnyNT   bool
 	overflowed  bool
-	truncRisk   map[int]bool // the queue bound may have dropped pushed tasks of this peer
+	truncRisk   map[int]bool    // the queue bound may have dropped pushed tasks of this peer
 	lostRisk    map[[2]int]bool // block (re-)added while a DONT_HAVE sent in place of the block was still un-acked
 	fullCleared bool
 }
@@ -454,6 +454,15 @@ func (s *st) checkEnvelope(p int, r sent) {
 		}
 		s.o.Kind("send-donthave")
 	}
+}
+
+func containsCid(cs []cid.Cid, c cid.Cid) bool {
+	for _, x := range cs {
+		if x == c {
+			return true
+		}
+	}
+	return false
 }
 
 func (s *st) inOutstanding(p peer.ID, c cid.Cid) bool {
@@ -666,14 +675,27 @@ func exec(c vh.Case, o *vh.Out) {
 				if pend, _ := s.e.VerifQueueTopics(pid(p)); len(pend) >= s.limit {
 					s.truncRisk[p] = true
 				}
-				for _, oe := range s.outst {
-					if pidx(oe.env.Peer) != p {
-						continue
-					}
-					for _, dc := range oe.env.Message.DontHaves() {
-						if s.idx[dc] == ci {
-							s.lostRisk[[2]int{p, ci}] = true
+				// a task for ci was popped for p while the block was missing (DONT_HAVE or nothing was sent in
+				// its place) and its envelope is still un-acked: the engine will skip this notification
+				if _, act := s.e.VerifQueueTopics(pid(p)); containsCid(act, s.pool[ci].blk.Cid()) {
+					carried := false
+					for _, oe := range s.outst {
+						if pidx(oe.env.Peer) != p {
+							continue
 						}
+						for _, b := range oe.env.Message.Blocks() {
+							if b.Cid() == s.pool[ci].blk.Cid() {
+								carried = true
+							}
+						}
+						for _, hc := range oe.env.Message.Haves() {
+							if hc == s.pool[ci].blk.Cid() {
+								carried = true
+							}
+						}
+					}
+					if !carried {
+						s.lostRisk[[2]int{p, ci}] = true
 					}
 				}
 			}
@@ -789,7 +811,7 @@ func exec(c vh.Case, o *vh.Out) {
 					}
 					sig := "accepted-want-unanswered"
 					if s.lostRisk[[2]int{pi, ci}] {
-						sig = "want-unserved-after-readd-behind-unacked-donthave"
+						sig = "want-unserved-after-readd-behind-unacked-task"
 					} else if s.truncRisk[pidx(p)] {
 						sig = "accepted-want-unanswered-after-queue-truncation"
 					}
